@@ -148,6 +148,7 @@ func checkC03(c *Check) {
 			}
 		}
 	}
+	c03LMTPCommit(c)
 	c03FanOut(c)
 	c03CommitOrder(c)
 	c03Permits(c)
@@ -577,4 +578,171 @@ func c03GetDelivery(c *Check) {
 		msg = "a started target delivery can be returned without being recorded (Commit/Abort will never reach it): " + w
 	}
 	c.Hold("R6", "getDelivery:owned", r.Pos(starts[0]), msg == "", msg)
+}
+
+// c03LMTPCommit: callers of BodyNonAtomic always Commit. A target delivery that did not receive the body (a check or
+// modifier failed before the fan-out, or its own Body failed) must therefore be aborted by the pipeline's Commit.
+func c03LMTPCommit(c *Check) {
+	p := c.P
+	c.Rule("R3b", "per-recipient (LMTP) path: a target delivery that did not accept the message body is marked and the pipeline's Commit aborts it instead of committing it (a message refused at the body stage is committed to no target)", 3)
+	rb := c.need("R3b", pipelineRel, "msgpipelineDelivery", "BodyNonAtomic")
+	rc := c.need("R3b", pipelineRel, "msgpipelineDelivery", "Commit")
+	if rb == nil || rc == nil {
+		return
+	}
+	info := rb.Info
+	// the failure flag: a bool field of the per-target delivery struct set to true in BodyNonAtomic
+	var flag *types.Var
+	ast.Inspect(rb.FI.Decl.Body, func(n ast.Node) bool {
+		if as, ok := n.(*ast.AssignStmt); ok && len(as.Lhs) == 1 && len(as.Rhs) == 1 {
+			if fv := fieldOf(info, as.Lhs[0]); fv != nil {
+				if tv, ok := info.Types[as.Rhs[0]]; ok && tv.Value != nil && tv.Value.String() == "true" {
+					if b, ok := fv.Type().Underlying().(*types.Basic); ok && b.Kind() == types.Bool {
+						if nt := fieldOwner(p, fv); nt != nil && nt.Obj().Name() == "delivery" {
+							flag = fv
+						}
+					}
+				}
+			}
+		}
+		return true
+	})
+	if flag == nil {
+		c.Hold("R3b", "BodyNonAtomic:failure-recorded", rb.FI.Decl.Pos(), false, "the per-recipient body path does not record which target deliveries did not get the body; its callers always Commit, so a message rejected by a body check (every recipient refused) is committed to every target")
+		return
+	}
+	setsFlagOn := func(n ast.Node, obj types.Object) bool {
+		return nodeAssigns(n, func(l, rhs ast.Expr) bool {
+			if fieldOf(info, l) != flag || rhs == nil {
+				return false
+			}
+			s := ast.Unparen(l).(*ast.SelectorExpr)
+			tv, ok := info.Types[rhs]
+			return objOf(info, s.X) == obj && ok && tv.Value != nil && tv.Value.String() == "true"
+		})
+	}
+	// (i) every early return of BodyNonAtomic (before the fan-out) goes through a closure that marks every delivery
+	markAll := map[types.Object]bool{}
+	ast.Inspect(rb.FI.Decl.Body, func(n ast.Node) bool {
+		if as, ok := n.(*ast.AssignStmt); ok && len(as.Lhs) == 1 && len(as.Rhs) == 1 {
+			if fl, ok := as.Rhs[0].(*ast.FuncLit); ok {
+				for _, rs := range rangesIn(fl.Body, func(rs *ast.RangeStmt) bool { return isField(info, rs.X, "msgpipelineDelivery", "deliveries") }) {
+					marks := false
+					for _, st := range rs.Body.List {
+						if setsFlagOn(st, objOf(info, rs.Value)) {
+							marks = true
+						}
+					}
+					if marks {
+						markAll[objOf(info, as.Lhs[0])] = true
+					}
+				}
+			}
+		}
+		return true
+	})
+	callsMarkAll := func(pt Pt) bool {
+		for _, call := range callsAt(pt.Node()) {
+			if id, ok := call.Fun.(*ast.Ident); ok && markAll[objOf(info, id)] {
+				return true
+			}
+		}
+		return false
+	}
+	// the fan-out loop
+	var fan *ast.RangeStmt
+	for _, rs := range rangesIn(rb.FI.Decl.Body, func(rs *ast.RangeStmt) bool { return isField(info, rs.X, "msgpipelineDelivery", "deliveries") }) {
+		if posIn(rb.FI.Decl.Body, rs.Pos()) {
+			inLit := false
+			ast.Inspect(rb.FI.Decl.Body, func(x ast.Node) bool {
+				if fl, ok := x.(*ast.FuncLit); ok && posIn(fl, rs.Pos()) {
+					inLit = true
+				}
+				return true
+			})
+			if !inLit {
+				fan = rs
+			}
+		}
+	}
+	msg := ""
+	if fan == nil {
+		msg = "undecided: fan-out loop not found"
+	} else {
+		fanStart, _ := rb.F.PtOf(fan.X.Pos())
+		// a return before the fan-out that does not mark all deliveries
+		early := func(pt Pt) bool {
+			if !rb.F.IsExitPt(pt) {
+				return false
+			}
+			_, ret := rb.F.Exit(pt)
+			return ret != nil && ret.Pos() < fan.Pos()
+		}
+		if path, f := rb.F.Reach(Query{From: rb.Entry(), Inclusive: true, Target: early, Avoid: orPt(callsMarkAll, isPt([]Pt{fanStart}))}); f {
+			msg = "the body stage can end before the fan-out without marking the target deliveries as failed: " + rb.F.Describe(path)
+		}
+	}
+	c.Hold("R3b", "BodyNonAtomic:early-failure-marks-all", rb.FI.Decl.Pos(), msg == "", msg)
+	// (ii) atomic target Body failure marks that delivery
+	msg = ""
+	if fan != nil {
+		lv := objOf(info, fan.Value)
+		for _, pt := range rb.F.Points() {
+			nd := pt.Node()
+			if nd == nil || !posIn(fan.Body, nd.Pos()) {
+				continue
+			}
+			for _, call := range callsAt(nd) {
+				if methodName(call) == "Body" && recvObj(info, call) == lv {
+					eo := errVarAssigned(info, nd, call)
+					iterEnd := func(q Pt) bool {
+						return (q.B.Stmt == ast.Stmt(fan) && (q.B.Kind == kindRangeLoop || q.B.Kind == kindRangeDone) && q.I == 0) || rb.F.IsExitPt(q)
+					}
+					marks := func(q Pt) bool { return q.Node() != nil && setsFlagOn(q.Node(), lv) }
+					if eo == nil {
+						msg = "the error of the target's Body is dropped"
+					} else if path, f := rb.F.ReachRefined(pt, eo, false, false, iterEnd, marks); f {
+						msg = "a target whose Body failed is not marked: the caller's Commit commits it: " + rb.F.Describe(path)
+					}
+				}
+			}
+		}
+	}
+	c.Hold("R3b", "BodyNonAtomic:target-failure-marks-it", rb.FI.Decl.Pos(), msg == "", msg)
+	// (iii) Commit aborts marked deliveries
+	ci := rc.Info
+	msg = "undecided: Commit has no loop over the deliveries"
+	for _, rs := range rangesIn(rc.FI.Decl.Body, func(rs *ast.RangeStmt) bool { return isField(ci, rs.X, "msgpipelineDelivery", "deliveries") }) {
+		lv := objOf(ci, rs.Value)
+		msg = ""
+		world := rc.F.World(func(atom ast.Expr) (bool, bool) {
+			if fv := fieldOf(ci, atom); fv == flag {
+				if s, ok := ast.Unparen(atom).(*ast.SelectorExpr); ok && objOf(ci, s.X) == lv {
+					return true, true
+				}
+			}
+			return false, false
+		})
+		var bodyStart []Pt
+		for _, b := range rc.F.G.Blocks {
+			if b.Kind == kindRangeBody && b.Stmt == ast.Stmt(rs) {
+				bodyStart = append(bodyStart, Pt{b, 0})
+			}
+		}
+		commits := func(q Pt) bool {
+			for _, call := range callsAt(q.Node()) {
+				if methodName(call) == "Commit" && recvObj(ci, call) == lv {
+					return true
+				}
+			}
+			return false
+		}
+		iterEnd := func(q Pt) bool {
+			return (q.B.Stmt == ast.Stmt(rs) && (q.B.Kind == kindRangeLoop || q.B.Kind == kindRangeDone) && q.I == 0) || rc.F.IsExitPt(q)
+		}
+		if path, f := rc.F.Reach(Query{From: bodyStart, Inclusive: true, Target: commits, Avoid: iterEnd, AvoidEdge: world}); f {
+			msg = "a target delivery marked as not having accepted the body is still committed: " + rc.F.Describe(path)
+		}
+	}
+	c.Hold("R3b", "Commit:aborts-marked", rc.FI.Decl.Pos(), msg == "", msg)
 }
